@@ -50,11 +50,11 @@ def main(run):
     harness_build()
     n = 120 if run.tier == "quick" else 1500
     cases = gen_cases(run, n)
-    toml = J.make_toml()
     reqs = []
     for c in cases:
         ops = [{"op": "txns"}, {"op": "balance", "prices": False, "ras": [esc_re(x) for x in c["names"]]}]
-        reqs.append({"conf": {"toml": toml}, "inputs": [{"text": c["text"]}], "ops": ops})
+        smin, smax = J.scale_for(c["text"])        # display setting: must not reach the figures
+        reqs.append({"conf": {"toml": J.make_toml(smin=smin, smax=smax)}, "inputs": [{"text": c["text"]}], "ops": ops})
     res = harness_run(reqs)
     terms, idx = [], []
     stages = {}
